@@ -729,6 +729,9 @@ class Exec:
             return z3.Or([self.isinstance_(v, x) for x in c.items])
         if not isinstance(c, Ref):
             raise Unsupported(f"isinstance against {c!r}")
+        if isinstance(v, Z) and v.t.sort() == S.Py and c.kind == "builtin" and c.name == "type":
+            # isinstance(v, type): "v is a class object" - an uninterpreted predicate of the value
+            return self.w.ufun("is_class_object", S.Py, z3.BoolSort())(v.t)
         if isinstance(v, Z):
             s = v.t.sort()
             if c.kind == "astclass":
@@ -1524,7 +1527,8 @@ class Exec:
                     return self.inline_call(fnode_, None, args, kw, line)
                 return self.apply_contract(f.name, None, args, kw, line)
             if f.kind == "inline":
-                return self.inline_call(f.extra, None, args, kw, line)
+                return self.inline_call(f.extra, None, args, kw, line,
+                                        closure=getattr(f, "closure", None))
             if f.kind == "spec":
                 return self.w.specs[f.name].apply(self, args)
             if f.kind == "exc":
@@ -1603,7 +1607,7 @@ class Exec:
             pass
         raise Unsupported(f"method {ckey}.{name} has no contract/model")
 
-    def inline_call(self, fnode, self_obj, args, kw, line):
+    def inline_call(self, fnode, self_obj, args, kw, line, closure=None):
         check_decorators(fnode)
         depth = getattr(self, "_inline_depth", 0)
         if depth > 3:
@@ -1630,6 +1634,9 @@ class Exec:
             if di < 0:
                 raise Unsupported(f"inline call of {fnode.name}: missing argument {p}")
             env[p] = default_value(self, fnode.args.defaults[di])
+        if closure:
+            # the locals of the defining function are visible (parameters shadow them)
+            env = dict({k: v for k, v in closure.items() if k not in env}, **env)
         saved_fn = self.fn
         self._inline_depth = depth + 1
         self.fn = fnode
@@ -1968,7 +1975,14 @@ class Exec:
             self.run_block(s.orelse, env)
 
     def st_FunctionDef(self, s, env):
-        env[s.name] = Opaque(f"nested def {s.name}")
+        # a function defined inside the function under verification: executed inline where it is
+        # called, in the environment of its definition (closure: read-only use of the outer locals)
+        if s.decorator_list or s.args.vararg or s.args.kwarg:
+            env[s.name] = Opaque(f"nested def {s.name}")
+        else:
+            r = Ref("inline", s.name, extra=s)
+            r.closure = env
+            env[s.name] = r
 
     def st_ClassDef(self, s, env):
         env[s.name] = Ref("class", self.w.nested_class_key(self.fn_key, s.name))
